@@ -11,8 +11,9 @@
    the path's BlindedTail) — and what the router reads of each variant is the GENERATED `candidate_*`
    tables. -/
 import LdkModel.Proofs.Route
+import LdkModel.Proofs.RouteSelect
 namespace Ldk.C16
-open Ldk Ldk.Router Ldk.RouteFees Ldk.RouteValid Ldk.RouteProofs
+open Ldk Ldk.Router Ldk.RouteFees Ldk.RouteValid Ldk.RouteProofs Ldk.RouteSelect Ldk.RouteSelectProofs
 
 /-! ## the checker is the specification -/
 
@@ -1023,5 +1024,118 @@ theorem carried_liquidity_within_maximum_partial (hmax : Nat) (l : List Sel) (ca
     rw [e]; simpa using hb
 /-- the KF-C16-11 probe: two paths admitted and booked with 4 + 4 ≤ 9, each CARRYING 5 (raised to the first hop's minimum): 10 > 9 -/
 example : bookAll none [⟨1, 100, 3, 3, 1⟩, ⟨1, 100, 3, 3, 1⟩] = some 8 ∧ ¬ (([5, 5] : List Nat).sum ≤ 9) := by decide
+
+/-! ## C16-r6: get_route steps (5)–(8) on the translated statements (Generated/RouterSelect.lean), sort_first_hop_channels -/
+
+/-- get_route steps (5)–(7), for EVERY list of collected path values and every positive payment amount they cover: step (5) does not
+    fail; the retain loop of step (6) (translated closure) keeps at least one path, drops only whole paths covered by the
+    overpayment, and every path it keeps is worth MORE than what is still overpaid (the source's comment "We already dropped all
+    the paths with value below `overpaid_value_msat` above, thus this can't go negative"); so whichever kept path step (7)'s sort
+    puts first (any permutation of the kept paths), the translated subtraction does not underflow, the values handed on sum to
+    EXACTLY final_value_msat, and no path of value 0 remains -/
+theorem overpay_removal_exact (final : Nat) (vals : List Nat) (hf : 0 < final) (hs : final ≤ vals.sum) :
+    ∃ kept over, selectPaths final vals = .ok (kept, over) ∧ kept ≠ [] ∧ over ≤ vals.sum - final ∧
+      (∀ v ∈ kept, over < v) ∧ kept.sum = final + over ∧
+      ∀ kept', kept'.Perm kept → ∃ out, reduceFirst kept' over = some out ∧ out.sum = final ∧ out.length = kept.length ∧ ∀ v ∈ out, 0 < v := by
+  have hne : vals.length ≠ 0 := by
+    intro h; have : vals = [] := List.length_eq_zero_iff.mp h; subst this; simp at hs; omega
+  have hsel : selectPaths final vals = .ok (retainOverpaid vals.length (vals.sum - final) vals) := by
+    unfold selectPaths no_path_found insufficient_value_collected initial_overpaid_value_msat
+    rw [if_neg (by simpa using hne), if_neg (by simp; omega)]
+  obtain ⟨a, b, c, d⟩ := retain_invariant vals vals.length (vals.sum - final) 0 (by simp) (by intro _; omega)
+  refine ⟨_, _, hsel, d rfl, a, c, by omega, ?_⟩
+  intro kept' hp
+  have hsum : kept'.sum = (retainOverpaid vals.length (vals.sum - final) vals).1.sum := hp.sum_nat
+  unfold reduceFirst has_remaining_overpayment
+  by_cases h0 : (retainOverpaid vals.length (vals.sum - final) vals).2 = 0
+  · rw [if_neg (by simp [h0])]
+    refine ⟨kept', rfl, by omega, hp.length_eq, ?_⟩
+    intro v hv; have := c v (hp.mem_iff.mp hv); omega
+  · rw [if_pos (by simp [h0])]
+    cases kept' with
+    | nil => exact absurd (hp.symm.eq_nil) (d rfl)
+    | cons v vs =>
+      have hv := c v (hp.mem_iff.mp (by simp))
+      simp only [List.sum_cons] at hsum
+      have hlt : ¬ v < (retainOverpaid vals.length (vals.sum - final) vals).2 := by omega
+      simp only [hlt, if_false]
+      refine ⟨_, rfl, ?_, by simpa using hp.length_eq, ?_⟩
+      · simp only [List.sum_cons, expensive_path_new_value_msat]; omega
+      · intro x hx
+        rcases List.mem_cons.mp hx with hx | hx
+        · subst hx; simp only [expensive_path_new_value_msat]; omega
+        · have := c x (hp.mem_iff.mp (List.mem_cons_of_mem _ hx)); omega
+/-- collected 5 + 3 + 4 for a payment of 6: the 5 is dropped (covered by the overpayment 6), 1 is still overpaid, and is taken off
+    the first remaining path -/
+example : selectPaths 6 [5, 3, 4] = .ok ([3, 4], 1) ∧ reduceFirst [4, 3] 1 = some [3, 3] := ⟨rfl, rfl⟩
+
+/-- steps (5)–(6) never drop a path that the overpayment does not cover, and fail exactly when nothing / too little was collected -/
+theorem select_fails_iff (final : Nat) (vals : List Nat) :
+    (∃ e, selectPaths final vals = .error e) ↔ vals = [] ∨ vals.sum < final := by
+  unfold selectPaths no_path_found insufficient_value_collected
+  by_cases h1 : vals.length = 0
+  · have : vals = [] := List.length_eq_zero_iff.mp h1
+    subst this; simp
+  · have hne : vals ≠ [] := fun h => h1 (by simp [h])
+    by_cases h2 : vals.sum < final
+    · simp [h1, h2]
+    · simp [h1, h2, hne]
+example : selectPaths 6 [2, 3] = .error "insufficient" ∧ selectPaths 6 [] = .error "no-path" := ⟨rfl, rfl⟩
+
+/-- get_route step (8), for every list of (path key, value): merging identical neighbours (translated `new_value`) keeps the total
+    value and never adds a path — so the amount clause established by steps (6)–(7) and the max_path_count bound survive the merge.
+    (What the merge does NOT keep is the per-hop limit: the fee is recomputed on the sum, kf10_merged_fee_exceeds_parts_by_at_most_one.) -/
+theorem merge_preserves_total {κ : Type} [DecidableEq κ] (l : List (κ × Nat)) :
+    ((mergeAdjacent l).map Prod.snd).sum = (l.map Prod.snd).sum ∧ (mergeAdjacent l).length ≤ l.length :=
+  ⟨merge_sum l, merge_length l⟩
+/-- three identical paths: the loop merges the first two and moves on — two identical paths remain (as in the source) -/
+example : mergeAdjacent [(7, 1), (7, 2), (7, 4), (9, 5)] = [(7, 3), (7, 4), (9, 5)] := by decide
+
+/-- sort_first_hop_channels: the TRANSLATED comparator is a consistent total preorder (what `sort_unstable_by` requires — an
+    inconsistent comparator may panic or leave the slice in unspecified order), and it says: channels whose remaining limit covers
+    recommended_value_msat come first, smallest first; then the others, largest first -/
+theorem first_hop_order_is_total_preorder (r : Nat) :
+    (∀ a b, firstHopLe r a b || firstHopLe r b a) ∧ (∀ a b c, firstHopLe r a b → firstHopLe r b c → firstHopLe r a c) ∧
+    (∀ a b, first_hop_channel_order b a r = (first_hop_channel_order a b r).swap) ∧
+    (∀ a b, firstHopLe r a b = true ↔ (r ≤ a ∧ r ≤ b ∧ a ≤ b) ∨ (r ≤ a ∧ b < r) ∨ (a < r ∧ b < r ∧ b ≤ a)) := by
+  refine ⟨?_, ?_, ?_, firstHopLe_iff r⟩
+  · intro a b
+    rw [Bool.or_eq_true, firstHopLe_iff, firstHopLe_iff]; omega
+  · intro a b c h1 h2
+    rw [firstHopLe_iff] at h1 h2 ⊢; omega
+  · intro a b
+    unfold first_hop_channel_order
+    by_cases h : (decide (b < r) || decide (a < r)) = true
+    · have h' : (decide (a < r) || decide (b < r)) = true := by rw [Bool.or_comm]; exact h
+      rw [if_pos h, if_pos h', Nat.compare_swap]
+    · have h' : ¬ (decide (a < r) || decide (b < r)) = true := by rw [Bool.or_comm]; exact h
+      rw [if_neg h, if_neg h', Nat.compare_swap]
+example : firstHopLe 10 12 15 = true ∧ firstHopLe 10 15 3 = true ∧ firstHopLe 10 7 3 = true ∧ firstHopLe 10 3 7 = false := by decide
+
+/-- sort_first_hop_channels, for every set of channels to a peer and every used_liquidities: the model's result (the remaining
+    limits, translated, in the translated comparator's order) is a permutation of the remaining limits, ordered; and if ANY channel
+    still covers recommended_value_msat the FIRST one does, with the smallest such limit -/
+theorem sorted_first_hops_prefer_smallest_sufficient (r : Nat) (used chans : List (Nat × Bool × Nat)) :
+    (sortFirstHops r used chans).Perm (chans.map fun c => first_hop_outbound_limit_msat c.2.2 (usedOf used c.1 c.2.1)) ∧
+    (sortFirstHops r used chans).Pairwise (fun a b => firstHopLe r a b) ∧
+    ∀ x ∈ sortFirstHops r used chans, r ≤ x → ∃ h t, sortFirstHops r used chans = h :: t ∧ r ≤ h ∧ h ≤ x := by
+  have hpw : (sortFirstHops r used chans).Pairwise (fun a b => firstHopLe r a b) :=
+    List.pairwise_mergeSort (le := firstHopLe r) (fun a b c => (first_hop_order_is_total_preorder r).2.1 a b c)
+      (fun a b => (first_hop_order_is_total_preorder r).1 a b) _
+  refine ⟨List.mergeSort_perm _ _, hpw, ?_⟩
+  intro x hx hr
+  cases hl : sortFirstHops r used chans with
+  | nil => rw [hl] at hx; simp at hx
+  | cons h t =>
+    refine ⟨h, t, rfl, ?_⟩
+    rw [hl] at hx hpw
+    rcases List.mem_cons.mp hx with hx | hx
+    · subst hx; exact ⟨hr, Nat.le_refl _⟩
+    · have := (List.pairwise_cons.mp hpw).1 x hx
+      rw [firstHopLe_iff] at this; omega
+/-- channels with remaining limits 30, 16 - 4 = 12, 3, 9 for a recommended value of 10: the first channel offered covers it with at most 12 -/
+example : ∃ h t, sortFirstHops 10 [(5, true, 4)] [(1, true, 30), (5, true, 16), (5, false, 3), (9, true, 9)] = h :: t ∧ 10 ≤ h ∧ h ≤ 12 :=
+  (sorted_first_hops_prefer_smallest_sufficient 10 _ _).2.2 12
+    (by simp [sortFirstHops, first_hop_outbound_limit_msat, usedOf]) (by decide)
 
 end Ldk.C16
